@@ -8,18 +8,19 @@ From Coq Require Import ZifyBool Sorted.
    - a vault message is signed by a user account (not by the module accounts vaultV1 / collectorV1);
    - the liquidator of MsgLiquidateInternalKeeper and the bidder of MsgPlaceMarketBid are not the vault
      custody account;
-   - known-finding class C01-F4: the auctionsV2 BeginBlocker does not run while an auction of an app under
-     emergency shutdown is past its end time ([esm_return_due], Model/VaultLife.v).
-   The environment values of a bid (paid, received, closed, exhausted, top-up) are NOT constrained: the
-   invariant does not depend on the bounds Properties/C10.v (c10_bid_amounts, c10_close_complete) proves for
-   them, because a closing bid moves the published totals by the amounts recorded at the seizure. *)
+   - the environment amounts of a successful bid are within the auction's remainder: what it paid is at most
+     the debt still to collect, what it received at most the collateral left.  This is what the auction
+     theorems establish for the real arithmetic: Properties/C10.v c10_bid_amounts
+     (0 <= r_paid r <= a_debt a /\ 0 <= r_recv r <= a_coll a for every successful place_bid_core).  Nothing
+     else is asked of them (whether the bid closed, the exhausted branch and its top-up are arbitrary).
+   The auctionsV2 block tick, the sweep and the esm redemption carry no hypothesis. *)
 Definition lop_ok (l : lstate) (o : lop) : Prop :=
   match o with
   | VOp o' => user_op o'
   | Liquidate _ _ k => k <> VAULT
-  | Bid _ who _ _ _ _ _ => who <> VAULT
-  | AucTick => kf_C01_4 l true = false
-  | Sweep _ | EsmRedeem _ => True
+  | Bid aid who paid recv _ _ _ =>
+      who <> VAULT /\ forall a, find_au (aus l) aid = Some a -> 0 <= paid <= au_debt a /\ 0 <= recv <= au_coll a
+  | AucTick | Sweep _ | EsmRedeem _ => True
   end.
 
 Fixpoint hist_ok (c : cfg) (lc : lcfg) (l : lstate) (ops : list lop) : Prop :=
@@ -34,8 +35,8 @@ Proof.
   - destruct (run c (vs l) o) as [s'| |] eqn:R; try discriminate H. injection H as <-. exact (vop_invL c l o s' CK Hok I R).
   - exact (liquidate_invL c lc l id ienv true keeper l' CK (fun _ => Hok) I H).
   - injection H as <-. exact (sweep_invL c lc items CK l I).
-  - exact (bid_invL c lc l aid who paid recv closed exh topup l' Hok I H).
-  - injection H as <-. apply auc_tick_invL; [exact I|exact Hok].
+  - exact (bid_invL c lc l aid who paid recv closed exh topup l' (proj1 Hok) (proj2 Hok) I H).
+  - injection H as <-. apply auc_tick_invL. exact I.
   - exact (esm_redeem_invL c lc l app l' I H).
 Qed.
 
@@ -74,11 +75,12 @@ Proof.
   - intros d. rewrite shift_cust, shift_unsol, H1. destruct (_ =? d); lia.
 Qed.
 
-Lemma invL_lift c s : Inv01 c s -> (forall v, In v (vaults s) -> v_owner v <> VAULT) -> InvL c (lift s).
+Lemma invL_lift c s : Inv01 c s -> (forall v, In v (vaults s) -> v_owner v <> VAULT) -> umap_ok s -> InvL c (lift s).
 Proof.
-  intros I HO. constructor; cbn [lift vs lks aus lkid].
+  intros I HO HU. constructor; cbn [lift vs lks aus lkid].
   - unfold view. apply inv01_shift0; try (intros; reflexivity). exact I.
   - exact HO.
+  - exact HU.
   - constructor.
   - constructor.
   - intros k [].
@@ -86,7 +88,7 @@ Proof.
 Qed.
 
 Lemma invL_init c b sp t pr : (forall d, b VAULT d = 0) -> InvL c (lift (init b sp t pr)).
-Proof. intros Hb. apply invL_lift; [apply inv01_init; exact Hb|]. intros v []. Qed.
+Proof. intros Hb. apply invL_lift; [apply inv01_init; exact Hb|intros v []|]. intros o a p id H. discriminate H. Qed.
 
 (* ---------- the executable predicate ---------- *)
 Lemma invL_custody c l d : InvL c l -> bal (vs l) VAULT d = coll_sum c (vs l) d + unsol (vs l) d - er_short l d.
@@ -138,4 +140,36 @@ Proof.
     destruct (prods (vs l) (ep_app e) (ep_id e)) as [pr|].
     + rewrite P3, list_eqb_refl, (sorted_ascending _ P4). rewrite !andb_true_iff. repeat split; apply Z.eqb_eq; lia.
     + rewrite <- P3. rewrite !andb_true_iff. repeat split; try reflexivity; apply Z.eqb_eq; lia.
+Qed.
+
+(* ---------- a decision procedure for the hypotheses of a concrete history (used by the examples) ---------- *)
+Definition lop_okb (l : lstate) (o : lop) : bool :=
+  match o with
+  | VOp o' => negb (sender o' =? VAULT) && negb (sender o' =? COLL)
+  | Liquidate _ _ k => negb (k =? VAULT)
+  | Bid aid who paid recv _ _ _ =>
+      negb (who =? VAULT) &&
+      match find_au (aus l) aid with
+      | Some a => (0 <=? paid) && (paid <=? au_debt a) && (0 <=? recv) && (recv <=? au_coll a)
+      | None => true end
+  | AucTick | Sweep _ | EsmRedeem _ => true
+  end.
+Fixpoint hist_okb (c : cfg) (lc : lcfg) (l : lstate) (ops : list lop) : bool :=
+  match ops with
+  | [] => true
+  | o :: r => lop_okb l o && hist_okb c lc (lstep c lc l o) r
+  end.
+
+Lemma lop_okb_sound l o : lop_okb l o = true -> lop_ok l o.
+Proof.
+  destruct o; cbn [lop_okb lop_ok]; intros H; try exact Logic.I.
+  - apply andb_true_iff in H. destruct H as [H1 H2]. apply negb_true_iff in H1, H2. split; intros E; rewrite E in *; discriminate.
+  - apply negb_true_iff in H. intros E. rewrite E in H. discriminate.
+  - apply andb_true_iff in H. destruct H as [H1 H2]. apply negb_true_iff in H1. split; [intros E; rewrite E in H1; discriminate|].
+    intros a Ha. rewrite Ha in H2. rewrite !andb_true_iff in H2. lia.
+Qed.
+Lemma hist_okb_sound c lc ops : forall l, hist_okb c lc l ops = true -> hist_ok c lc l ops.
+Proof.
+  induction ops as [|o ops IH]; intros l H; cbn [hist_okb hist_ok] in *; [exact Logic.I|].
+  apply andb_true_iff in H. destruct H as [H1 H2]. split; [exact (lop_okb_sound l o H1)|exact (IH _ H2)].
 Qed.
